@@ -64,9 +64,17 @@ LIB_GENERIC = {"zqg_gen"}
 LIB_PUBLIC = LIB_VARS | LIB_TYPES | LIB_SUBS | LIB_FUNS | LIB_GENERIC
 EXT_MEMBERS = {"zqc_three", "zqn_nested", "zqc_one", "zqc_two", "zqb_bind"}
 
-ACCESS = ["direct", "only_some", "rename", "via_public_mid", "via_private_mid", "none", "rename_clash", "rename_local"]
+ACCESS = ["direct", "only_some", "rename", "via_public_mid", "via_private_mid", "none", "rename_clash", "rename_local", "private_lib"]
 # rename_clash: the renamed entity's declared name is also the name of a different entity imported from a second module;
 # rename_local: ... is also the name of a variable declared in the using scope itself
+# a library module whose default accessibility is PRIVATE: only what a PUBLIC statement names is accessible, and that
+# includes procedures declared by an unnamed interface block
+PRIV = ("module zqpriv\n  implicit none\n  private\n  public :: zqp_pub, zqx_open\n  integer :: zqp_pub\n  integer :: zqp_hid\n"
+        "  interface\n    function zqx_open(a) result(r)\n      integer :: a, r\n    end function zqx_open\n"
+        "    function zqx_secret(a) result(r)\n      integer :: a, r\n    end function zqx_secret\n"
+        "    subroutine zqx_hidsub(a)\n      integer :: a\n    end subroutine zqx_hidsub\n  end interface\n"
+        "contains\n  subroutine zqp_hidproc()\n  end subroutine zqp_hidproc\nend module zqpriv\n")
+PRIV_PUBLIC = {"zqp_pub": "var", "zqx_open": "fun"}
 TWO = "module zqtwo\n  implicit none\n  integer :: zqv_pub\nend module zqtwo\n"
 SCOPES = ["program", "module_procedure", "internal_procedure"]
 
@@ -90,6 +98,8 @@ def imported(access):
         return {"zqr_ren": ("var", "zqv_pub"), "zqv_pub": ("var", "zqtwo::zqv_pub")}
     if access == "rename_local":
         return {"zqr_ren": ("var", "zqv_pub")}
+    if access == "private_lib":
+        return {n: (c, n) for n, c in PRIV_PUBLIC.items()}
     return {}
 
 
@@ -98,7 +108,9 @@ def build(access, scope):
     use = {"direct": "use zqmod", "only_some": "use zqmod, only: zqv_pub, zqt_ext, zqs_sub", "rename": "use zqmod, only: zqr_ren => zqv_pub, zqt_ext",
            "via_public_mid": "use zqmid", "via_private_mid": "use zqmid", "none": None,
            "rename_clash": "use zqmod, only: zqr_ren => zqv_pub\n  use zqtwo, only: zqv_pub",
-           "rename_local": "use zqmod, only: zqr_ren => zqv_pub"}[access]
+           "rename_local": "use zqmod, only: zqr_ren => zqv_pub", "private_lib": "use zqpriv"}[access]
+    if access == "private_lib":
+        files["zqpriv.f90"] = PRIV
     if access == "rename_clash":
         files["zqtwo.f90"] = TWO
     if access in ("via_public_mid", "via_private_mid"):
@@ -120,6 +132,8 @@ def build(access, scope):
         if u:
             lines.extend(u.split("\n"))
         probe("use_only", "  use zqmod, only: ")
+        if access == "private_lib":
+            probe("use_only_priv", "  use zqpriv, only: ")
         probe("use", "  use ")
         lines.append("  implicit none")
         lines.append("  integer :: zql_var")
@@ -211,10 +225,12 @@ def expected(ctx, names, access):
                 opt.add(n)   # functions, and an object whose type has bound procedures (call obj%proc): tolerated
     elif ctx == "use":
         req = {"zqmod"} | ({"zqmid"} if access in ("via_public_mid", "via_private_mid") else set()) | \
-            ({"zqtwo"} if access == "rename_clash" else set())
+            ({"zqtwo"} if access == "rename_clash" else set()) | ({"zqpriv"} if access == "private_lib" else set())
         opt = {"zqu_user"}
     elif ctx == "use_only":
         req = set(LIB_PUBLIC)
+    elif ctx == "use_only_priv":
+        req = set(PRIV_PUBLIC)
     elif ctx in ("type_paren", "class_paren"):
         req = {n for n, c in names.items() if c == "type"}
     elif ctx == "member":
@@ -330,7 +346,7 @@ def chain_case(order, acc: Acc):
 
 
 def main(ctx):
-    ctx.rule = ("8 access variants x 3 using scopes; per workspace up to 9 contexts (body, body with text after the cursor, CALL, "
+    ctx.rule = ("9 access variants x 3 using scopes; per workspace up to 9 contexts (body, body with text after the cursor, CALL, "
                 "USE, USE ONLY:, TYPE(, CLASS(, obj%, obj%comp%) x every prefix from the stem 'zq' up to the full name of every "
                 "expected entity x lower/upper case. Expected label set known from the model; subroutine names in expressions, "
                 "functions after CALL and program-unit names are tolerated (neither required nor forbidden). Non-trivial = at "
